@@ -26,7 +26,7 @@ use rustc_middle::mir::{
     self, AggregateKind, BasicBlock, Body, Const, Operand, Place, ProjectionElem, Rvalue,
     StatementKind, TerminatorKind,
 };
-use rustc_middle::ty::print::{with_crate_prefix, with_no_trimmed_paths};
+use rustc_middle::ty::print::{with_crate_prefix, with_no_trimmed_paths, with_no_visible_paths};
 use rustc_middle::ty::{self, Instance, Ty, TyCtxt, TypingEnv};
 use rustc_span::Span;
 use std::fmt::Write as _;
@@ -85,15 +85,15 @@ fn fix_crate(s: String) -> String {
 }
 
 fn dpath(tcx: TyCtxt<'_>, d: DefId) -> String {
-    fix_crate(with_crate_prefix!(with_no_trimmed_paths!(tcx.def_path_str(d))))
+    fix_crate(with_no_visible_paths!(with_crate_prefix!(with_no_trimmed_paths!(tcx.def_path_str(d)))))
 }
 
 fn gastr<'tcx>(a: ty::GenericArg<'tcx>) -> String {
-    fix_crate(with_crate_prefix!(with_no_trimmed_paths!(a.to_string())))
+    fix_crate(with_no_visible_paths!(with_crate_prefix!(with_no_trimmed_paths!(a.to_string()))))
 }
 
 fn tystr<'tcx>(ty: Ty<'tcx>) -> String {
-    let s = fix_crate(with_crate_prefix!(with_no_trimmed_paths!(ty.to_string())));
+    let s = fix_crate(with_no_visible_paths!(with_crate_prefix!(with_no_trimmed_paths!(ty.to_string()))));
     if s.len() > 400 {
         let mut e = 400;
         while !s.is_char_boundary(e) {
@@ -271,8 +271,8 @@ impl<'a, 'tcx> Cx<'a, 'tcx> {
                 if let Some(f) = self.fn_ref(ty) {
                     let _ = write!(s, ",{}", f);
                 } else {
-                    let disp0 = with_crate_prefix!(with_no_trimmed_paths!(format!("{}", c.const_)));
-                    let disp = if disp0.starts_with("const \"") || disp0.starts_with("const b\"") {
+                    let disp0 = with_no_visible_paths!(with_crate_prefix!(with_no_trimmed_paths!(format!("{}", c.const_))));
+                    let disp = if disp0.starts_with("const \"") || disp0.starts_with("const b\"") || disp0.starts_with('"') || disp0.starts_with("b\"") {
                         disp0
                     } else {
                         fix_crate(disp0)
